@@ -154,8 +154,10 @@ def hypothesis_part(part, strategy, case_fn, examples, seed, nshards=None, shrin
     After a failure the search is re-run with that failure bucket excluded (and counted), so one
     shallow defect does not hide the next.
     """
+    import warnings
     import hypothesis
     from hypothesis import HealthCheck, Phase, given, settings
+    warnings.filterwarnings("ignore", category=hypothesis.errors.HypothesisWarning)
     nshards = nshards or NSHARDS
     per = max(1, examples // nshards)
 
@@ -211,7 +213,11 @@ def hypothesis_part(part, strategy, case_fn, examples, seed, nshards=None, shrin
             break
         return col
 
-    return run_sharded(part, shard_fn, nshards)
+    t_part = time.time()
+    col = run_sharded(part, shard_fn, nshards)
+    if os.environ.get("ADVF_TIMING"):
+        sys.stderr.write("[timing] part %s: %.1fs, %d evaluations\n" % (part, time.time() - t_part, col.evaluations))
+    return col
 
 
 def enumeration_part(part, items_fn, case_fn, nshards=None, stop_after=3, hash_of=None, distinct=False):
